@@ -232,7 +232,14 @@ def start_mesh(ck, case):
             c15.to_file(tis["img"], pth, bool(case.get("frame")))
             try:
                 sk = impl.quiet(fs.skeleton.Skeleton, pth, mirror_y=case.get("mirror", False))
-                out = c15.quiet_unraisable(impl.quiet, sk.create_lattice)
+                if case.get("twice"):
+                    # the reader is asked for its lattice a second time (the first one is dropped): the second one is the parsed mesh
+                    first = c15.quiet_unraisable(impl.quiet, sk.create_lattice)
+                    ck.count("skeleton_gen_second_lattice_of_one_reader")
+                kw_ = {"reduce_amount": True} if case.get("reduce") else {}
+                out = c15.quiet_unraisable(impl.quiet, sk.create_lattice, **kw_)
+                if case.get("reduce"):
+                    ck.count("skeleton_gen_parsed_with_reduce_amount")
             except Exception as ex:
                 # no mesh is produced: the property is about the meshes the parsers produce (parsing itself is C15's business)
                 ck.count("skeleton_gen_parser_raised_" + type(ex).__name__ + ("_thinned" if case.get("thin", True) else "_as_drawn"))
@@ -346,7 +353,7 @@ def run(ck):
         for i in range(8 if ck.tier == "quick" else 40):
             cases.append({"type": "skeleton_gen", "seed": int(ck.rng.integers(1 << 30)), "sites": int(ck.rng.integers(24, 46)), "lloyd": int(ck.rng.integers(1, 4)),
                           "ppc": int(ck.rng.integers(35, 46)), "subset_n": int(ck.rng.integers(6, 12)), "thin": bool(i % 2), "frame": bool((i // 2) % 2),
-                          "mirror": bool((i // 4) % 2),
+                          "mirror": bool((i // 4) % 2), "twice": bool(i % 2 == 1), "reduce": bool(i % 2 == 0),
                           "steps": [["genmesh", int(ck.rng.integers(3, 10)), bool(i % 3 == 0)], ["frame"]]})
         for i in range(2 if ck.tier == "quick" else 8):
             cases.append({"type": "tess", "seed": int(ck.rng.integers(1 << 30)), "n": int(ck.rng.integers(12, 60)), "ring": bool(i % 2),
